@@ -88,7 +88,8 @@ fn c02_two_forms(case: &Case) -> CaseReport {
         return rep;
     }
     for i in 0..a.trace.len().min(b.trace.len()) {
-        if a.trace[i] != b.trace[i] || a.views[i].lists != b.views[i].lists {
+        let same = matches!((&a.trace[i], &b.trace[i]), (Out::Text(_), Out::Text(_))) || a.trace[i] == b.trace[i];
+        if !same || a.views[i].lists != b.views[i].lists {
             rep.violation = Some(Violation {
                 prop: "C02",
                 step: i,
